@@ -2,15 +2,17 @@
 """Development helper: run each seeded change against its own property's quick check in the scratch copy
 (/tmp/mrepo + /tmp/mverif, see tools/mutrun.sh) and record the verdicts in /tmp/matrix.json."""
 import json, os, re, subprocess, sys, time, glob
+S = os.environ.get('SCR', 'm')
+OUT = '/tmp/matrix.json' if S == 'm' else f'/tmp/matrix-{S}.json'
 res = {}
 only = sys.argv[1:]
 for d in sorted(glob.glob('/verif/seeded/*')):
     sid = os.path.basename(d)
-    if only and not any(sid.startswith(o) for o in only): continue
+    if only and not any(sid == o or (o.endswith('*') and sid.startswith(o[:-1])) for o in only): continue
     prop = json.load(open(d + '/meta.json'))['breaks_property']
     t0 = time.time()
     r = subprocess.run(['/verif/tools/mutrun.sh', 'run', d + '/patch.diff', prop], capture_output=True, text=True)
-    err = open('/tmp/mutrun.err').read() if os.path.exists('/tmp/mutrun.err') else ''
+    err = open(f'/tmp/{S}utrun.err').read() if os.path.exists(f'/tmp/{S}utrun.err') else ''
     m = re.search(r'rc=(\d+)', r.stdout)
     rc = int(m.group(1)) if m else -1
     what = ''
@@ -19,4 +21,4 @@ for d in sorted(glob.glob('/verif/seeded/*')):
             what = l[:400]; break
     res[sid] = {'property': prop, 'rc': rc, 'secs': round(time.time() - t0), 'what': what}
     print(sid, prop, rc, round(time.time() - t0), what[:150], flush=True)
-    json.dump(res, open('/tmp/matrix.json', 'w'), indent=1)
+    json.dump(res, open(OUT, 'w'), indent=1)
